@@ -359,6 +359,9 @@ class Run:
     for _p in ("C09", "C15"): TRANSLATION_TIES.setdefault(_p, []).append("mapmatch@thorough")
     for _p in ("C02", "C03", "C11"): TRANSLATION_TIES.setdefault(_p, []).append("ctorshadow")
     for _p in ("C16",): TRANSLATION_TIES.setdefault(_p, []).append("cliselect")
+    # stage 6 (file-system side): ~8 s, C17 in both tiers, C18 in the thorough tier
+    TRANSLATION_TIES.setdefault("C17", []).append("writeproto")
+    TRANSLATION_TIES.setdefault("C18", []).append("writeproto@thorough")
 
     def run_translation_ties(self, cov):
         areas = self.TRANSLATION_TIES.get(self.prop)
